@@ -257,6 +257,8 @@ class Reader(BaseValidator):
         """
         self.accepted_rows_count = 0
         self.rejected_rows_count = 0
+        # Start counting rows from the beginning in case the reader is read again.
+        self._location = errors.Location(self._location.file_path, has_cell=True)
         for check in self.cid.check_map.values():
             check.reset()
         _verif.emit("reader_start", self)
